@@ -196,6 +196,40 @@ fn workload(dir: &str, name: &str) -> lsm_tree::Result<()> {
                 std::process::exit(7);
             }
         }
+        // PROBE (does not demonstrate anything so far): two bulk ingestions of the same key into a key-value separated tree, both versions kept (watermark 0),
+        // both blob files fragmented (a sibling table dropped by drop_range), then rewritten together (C08)
+        "ingest-relocate" => {
+            let seqno = SequenceNumberCounter::default();
+            let vis = SequenceNumberCounter::default();
+            let tree = Config::new(dir, seqno, vis)
+                .with_kv_separation(Some(
+                    KvSeparationOptions::default().separation_threshold(16).age_cutoff(1.0).staleness_threshold(0.1),
+                ))
+                .open()?;
+            let big = |c: u8| vec![c; 200];
+            for round in 0..2u8 {
+                let mut ing = tree.ingestion()?;
+                ing.write("k", big(b'a' + round))?;
+                ing.write(if round == 0 { "y1" } else { "y2" }, big(b'y'))?;
+                ing.finish()?;
+                // one table per key, every version kept
+                tree.major_compact(1, 0)?;
+                println!("ROUND {round} tables={} blob_files={}", tree.table_count(), tree.blob_file_count());
+            }
+            tree.drop_range("y1"..="y2")?;
+            println!("AFTER_DROP_RANGE tables={} blob_files={} stale={}", tree.table_count(), tree.blob_file_count(), tree.stale_blob_bytes());
+            let r = std::panic::catch_unwind(std::panic::AssertUnwindSafe(|| tree.major_compact(64_000_000, 0)));
+            match r {
+                Ok(Ok(())) => println!("COMPACT ok tables={} blob_files={}", tree.table_count(), tree.blob_file_count()),
+                Ok(Err(e)) => println!("COMPACT err {e:?}"),
+                Err(_) => {
+                    println!("DEMONSTRATED: relocating compaction panicked on a tree built by two bulk ingestions");
+                    std::process::exit(7);
+                }
+            }
+            let got = tree.get("k", SeqNo::MAX)?;
+            println!("GET k {:?}", got.map(|v| v.len()));
+        }
         // FIFO drop whose version GC fails (old version file replaced by a directory => unlink fails)
         "fifo-gc-fail" => {
             let tree = open(dir, false)?;
